@@ -611,7 +611,7 @@ func TestProp(t *testing.T) {
 }
 
 func TestReplay(t *testing.T) {
-	core.Replay(t, mutated, random, tlCheck, helpers, lists, tlRaw, tlbRaw, answers, answersGrid, liteapiCheck)
+	core.Replay(t, mutated, random, tlCheck, helpers, lists, tlRaw, tlbRaw, answers, answersGrid, liteapiCheck, sweep)
 }
 
 var _ = errors.New
